@@ -537,3 +537,11 @@ func (t SSHT) GetInChannelAuthType() transport.InChannelAuthType { return t.T.au
 
 // GetSSHArgs implements transport.SSHImplementation.
 func (t SSHT) GetSSHArgs() *transport.SSHArgs { return t.T.SSHArgs }
+
+// LastByteTime is the fake time at which the last byte so far was handed to the client.
+func (t *T) LastByteTime() time.Duration {
+	t.mu.Lock()
+	defer t.mu.Unlock()
+
+	return t.LastByteAt
+}
